@@ -1,5 +1,6 @@
 import UsualProofs.C01.SetLimitAcct
 import UsualProofs.C01.Step
+import UsualProofs.C01.NullOffAcct
 /-! Every public operation of the repaired code keeps the accounting invariant of the memory limit. -/
 set_option linter.unusedSimpArgs false
 set_option linter.unusedVariables false
@@ -25,7 +26,7 @@ theorem step_acct {rk : Nat → Nat} {s : State} (op : Op) (w : WF s) (wr : Rank
   | setDtor o d => exact setDtor_acct _ af o d
   | setLimit o mx fl => exact setLimit_acct _ ok rfl w wr af o mx fl hop hoof
   | nullOn fl => exact nullOn_acct _ ok w wr af fl hoof
-  | nullOff => exact absurd hop id
+  | nullOff => exact nullOff_acct _ ok w wr af hoof hstuck
 
 theorem af_empty : AF {} := by
   refine ⟨?_, ?_, ?_, ?_, ?_⟩
